@@ -20,7 +20,7 @@ from .peval import Evaluator, Model, Unsupported, RaisedInModel, ProgramRaised, 
 from .source import ClassInfo, FuncInfo, ModuleInfo, norm, const_value
 
 BUILTIN_FUNCS = {"frozenset", "len", "zip", "enumerate", "dict", "list", "tuple", "range", "all", "any", "min", "max", "abs", "int", "slice", "divmod", "pow",
-                 "float", "str", "bool", "sorted", "set", "sum", "round", "reversed", "repr", "iter", "next", "id"}
+                 "float", "str", "bool", "sorted", "set", "sum", "round", "reversed", "repr", "iter", "next", "id", "map", "filter"}
 BUILTIN_TYPES = {"int": int, "float": float, "str": str, "bool": bool, "dict": dict, "list": list, "tuple": tuple,
                  "set": set, "object": object, "complex": complex, "bytes": bytes, "type": type, "slice": slice}
 EXC_PARENTS = {"KeyError": "LookupError", "IndexError": "LookupError", "LookupError": "Exception", "ValueError": "Exception",
@@ -241,6 +241,39 @@ class _Suppress:
 
     def __init__(self, names, enter_result=None):
         self.names, self.enter_result = names, enter_result
+
+
+class _ExitStack(Model):
+    """contextlib.ExitStack: context managers entered through it (and callbacks) are left in reverse order when the stack is"""
+
+    def __init__(self, ev):
+        self.ev, self.stack = ev, []
+
+    def enter_context(self, cm):
+        r = self.ev._cm_enter(cm, None)
+        self.stack.append(("cm", cm))
+        return r
+
+    def callback(self, f, *a, **k):
+        self.stack.append(("cb", f, a, k))
+        return f
+
+    def __enter__(self):
+        return self
+
+    def close(self):
+        self.__exit__(None, None, None)
+
+    def __exit__(self, name, exc, tb):
+        cur = exc
+        while self.stack:
+            item = self.stack.pop()
+            if item[0] == "cm":
+                if self.ev._cm_exit(item[1], cur, None):
+                    cur = None
+            else:
+                self.ev.call(None, item[1], list(item[2]), dict(item[3]))
+        return exc is not None and cur is None
 
 
 def exc_matches(name, handler_names):
@@ -877,6 +910,8 @@ class ModelEval(Evaluator):
                         else:
                             raise Unsupported("contextlib.suppress(%r)" % (a_,))
                     return _Suppress(names)
+                if h is None and func.data[0] == "contextlib.ExitStack" and not args and not kwargs:
+                    return _ExitStack(self)
                 if h is None and func.data[0] == "contextlib.nullcontext":
                     return _Suppress([], args[0] if args else None)
                 if h is None and func.data[0] in ("copy.copy", "copy.deepcopy") and len(args) >= 1:
@@ -1002,6 +1037,15 @@ class ModelEval(Evaluator):
                 return len(v)
             except TypeError as e:
                 raise Raised("TypeError", node, str(e))
+        if name == "map" and len(args) >= 2 and not kwargs:
+            # (eager: the elements are produced in order, as a consumer that drains the iterator sees them)
+            cols = [self.iterate(a, node) for a in args[1:]]
+            return [self.call(node, args[0], list(row), {}) for row in zip(*cols)]
+        if name == "filter" and len(args) == 2 and not kwargs:
+            items = self.iterate(args[1], node)
+            if args[0] is None:
+                return [x for x in items if self.truth(x, node)]
+            return [x for x in items if self.truth(self.call(node, args[0], [x], {}), node)]
         if name in ("list", "tuple", "set", "sorted", "enumerate", "zip", "all", "any", "sum", "min", "max", "reversed", "dict"):
             conv = [self.iterate(a, node) if isinstance(a, PyObj) else a for a in args]
             if name == "dict" and conv and isinstance(args[0], PyObj):
